@@ -110,7 +110,7 @@ def parseMember (s : String) : Option (Name × Addr) :=
 def wfName (n : Name) : Bool := !n.contains '\n'
 def wfAddr (a : Addr) : Bool := !a.contains '\n' && !a.contains ' '
 
-def lastSeen (clk : Nat) : Nat := (clk + (2 ^ 64 - 1)) % 2 ^ 64
+def lastSeen (clk : Nat) : Nat := (clk + 18446744073709551615) % 18446744073709551616
 
 /-- monitor specification: effect of one input on the expected state -/
 def specEv (st : St) : Ev → St
